@@ -65,6 +65,16 @@ def hybridSelect {α : Type} (t : Int) (inputLen : Nat) (g r2 : α) : α :=
 /-- which engine `FindAllIndex` runs: `true` = go-re2 -/
 def dispatch (t : Int) (inputLen : Nat) : Bool := hasRE2 t && useRE2 t inputLen
 
+/-- `newRegexpMatchTree`: the pattern text handed to the engines for a query regexp printed as `printed`:
+    `(?i)` is prepended iff the query is not case sensitive.  It depends on the query alone — not on the threshold, not
+    on earlier searches of the process. -/
+def compiledPattern (caseSensitive : Bool) (printed : List UInt8) : List UInt8 :=
+  (if caseSensitive then [] else [40, 63, 105, 41]) ++ printed
+
+/-- the regexps of the match tree for one query: the grafana/regexp one, and the hybrid one for content queries only -/
+def matchTreePatterns (caseSensitive fileName : Bool) (printed : List UInt8) : List UInt8 × Option (List UInt8) :=
+  (compiledPattern caseSensitive printed, if fileName then none else some (compiledPattern caseSensitive printed))
+
 structure Candidate where
   byteOffset : Nat
   byteMatchSz : Nat
